@@ -21,4 +21,4 @@ def run(ctx, proofs_ok):
         plan.append(("rename", 10 if q else 60, widen))
     # every blocking form queued in MULTI returns at once (EXEC is exclusive: waiting inside it stalls the server)
     plan.append(("tcp-multi-bpop", 2 if q else 20, 0))
-    conc.run_scenarios(ctx, plan, "command mixes with overlapping key sets", txprog=True)
+    conc.run_scenarios(ctx, plan, "command mixes with overlapping key sets", txprog=True, prog_replay=False)
